@@ -12,7 +12,7 @@ mkdir -p "$OUT"
 # library change only (no tests, no seeded/ dir)
 ( cd "$WT" && git diff HEAD -- '*.go' ':!*_test.go' ':!seeded' ) > "$OUT/patch.diff"
 if [ ! -s "$OUT/patch.diff" ]; then echo "EMPTY PATCH"; exit 1; fi
-DEMO=$(cd "$WT" && git status --porcelain | awk '{print $2}' | grep 'zz_seeded_demo_test.go$' | head -1)
+DEMO=$(cd "$WT" && git status --porcelain --ignored | awk '{print $2}' | grep 'zz_seeded_demo_test.go$' | head -1)
 if [ -z "$DEMO" ]; then echo "NO DEMO TEST"; exit 1; fi
 cp "$WT/$DEMO" "$OUT/demo_test.go"
 DEMODIR=$(dirname "$DEMO")
